@@ -12,6 +12,7 @@ import numpy as np
 
 import gen
 import mc_tables
+import project as pj
 import tables_tv as tt
 import tlaps
 
@@ -27,8 +28,8 @@ def run_tv(ctx, n_tables, n_2d, max_len=800):
         for L in {int(rng.integers(20, max(21, n // 2))), int(nxt[int(rng.integers(0, len(nxt)))]), int(nxt[-1]), max(1, int(nxt[0]) // 2)}:
             if L < 1:
                 continue
-            recs.append(tt.record_epoch_df(df, n, L))
-            metas.append({'kind': c['kind'], 'n': n, 'epoch_len': L, 'cycles': len(df), 'closing_extremum_on_boundary': bool(np.any(nxt % L == 0)),
+            recs.append(tt.record_epoch_df(df, n, L, lab=len(recs)))
+            metas.append({'kind': c['kind'], 'labels': pj.LABELLINGS[(len(recs) - 1) % 4], 'n': n, 'epoch_len': L, 'cycles': len(df), 'closing_extremum_on_boundary': bool(np.any(nxt % L == 0)),
                           'centre': c['opts']['center_extrema']})
     nontriv = sum(1 for m in metas if m['closing_extremum_on_boundary'])
     tt.judge(ctx, recs, metas, PREFIXES, 'epoch_df')
